@@ -552,6 +552,40 @@ def switch_table(an, body, scrut_pred, dest_local=0):
     return None
 
 
+def result_for_value(an, body, value, dest_local=0):
+    """What a one-argument lookup function (`From<u16>`, `From<Enum>`: argument 1, or its discriminant) returns for
+    the concrete argument / discriminant `value`, whatever the shape of its `match` (a switch table, ranges and
+    or-patterns compiled to comparisons, guards on constants): the scrutinee locals are set to `value`, the blocks
+    that can execute are computed path-sensitively, and the values assigned to the return place there are
+    collected.  -> ("variant", adt, name) | ("const", v) | None (unknown / not unique)."""
+    scr = {}
+    for l in range(1, len(body.locals)):
+        try:
+            x = peel(an.local(body, l), widen=True)
+        except RecursionError:
+            continue
+        if x == ("arg", 1) or (x[0] == "discr" and peel(x[1]) == ("arg", 1)):
+            scr[l] = value
+    if not scr:
+        return None
+    live = body.reachable_cp(0, assume=scr)
+    outs = set()
+    for blk in sorted(live):
+        for s in body.blocks[blk]["stmts"]:
+            if s["k"] == "assign" and s["place"]["l"] == dest_local and not s["place"].get("p"):
+                rv = s["rv"]
+                if rv["k"] == "aggregate" and rv["agg"] == "adt":
+                    outs.add(("variant", rv["adt"], rv["variant"]))
+                elif rv["k"] == "use" and rv["op"]["k"] == "const" and "val" in rv["op"]:
+                    outs.add(("const", rv["op"]["val"]))
+                else:
+                    outs.add(("other", blk))
+        t = body.blocks[blk]["term"]
+        if t["k"] == "call" and t["dest"]["l"] == dest_local and not t["dest"].get("p"):
+            outs.add(("other", blk))
+    return next(iter(outs)) if len(outs) == 1 else None
+
+
 # ---------------------------------------------------------------------------
 # conditional reachability: which blocks can execute when some values are assumed
 
